@@ -160,8 +160,9 @@ def explore(mod_name, func_name, params, opts):
         path_ok = status == 'done'
         for c in ctx.claims:
             if c['kind'] == 'canary':
-                d = res['canaries'].setdefault(c['name'], {'refuted': 0, 'not_refuted': 0})
-                d['refuted' if c['verdict'] == 'sat' else 'not_refuted'] += 1
+                d = res['canaries'].setdefault(c['name'], {'refuted': 0, 'not_refuted': 0, 'unknown': 0})
+                # (a solver time-out on a canary says nothing about vacuity: inconclusive, not a harness error)
+                d['refuted' if c['verdict'] == 'sat' else ('not_refuted' if c['verdict'] == 'unsat' else 'unknown')] += 1
                 continue
             d = res['claims'].setdefault(c['name'], {'unsat': 0, 'sat': 0, 'unknown': 0})
             d[c['verdict']] = d.get(c['verdict'], 0) + 1
